@@ -33,7 +33,7 @@ func CreateHdlr(mediaOrHdlrType string) (*HdlrBox, error) {
 	case "audio", "soun":
 		hdlr.HandlerType = "soun"
 		hdlr.Name = "mp4ff audio handler"
-	case "subtitle", "subtitles", "subt":
+	case "subtitle", "subtitles", "subt", "stpp":
 		hdlr.HandlerType = "subt"
 		hdlr.Name = "mp4ff subtitle handler"
 	case "text", "wvtt":
